@@ -11,4 +11,12 @@ def numberingOk (t : List Gen.MonoRow) (except_ : List String) : Bool :=
      | some m => (specChain m).isSome && specChain m == modelChain m
      | none => false))
 
+/-- for every anomer-less row (except the listed branched-chain sugars) the reactor's anchor `ring_c` is the number of the anomeric
+    carbon: position-less groups go to the anomeric carbon (`OMe`) or the carbon after it (`NAc`, …) -/
+def anchorOk (t : List Gen.MonoRow) (except_ : List String) : Bool :=
+  t.all (fun r => (r.key.take 2 == ['A', '_'] || r.key.take 2 == ['B', '_']) || except_.contains (String.ofList r.key) ||
+    (match semOfChars r.smiles with
+     | some m => (specAnchor m).isSome && specAnchor m == modelAnchor m
+     | none => false))
+
 end Gly.EnumC
